@@ -37,3 +37,18 @@ package launch
 //@   ensures [level4] required != 1 && user != acl.superuser && (!mhas(acl.m, user) || (!has(mval(acl.m, user, map[ACLScope]ACLPerm), scope) && !has(mval(acl.m, user, map[ACLScope]ACLPerm), "_default"))) && mhas(acl.m, "_default") && !has(mval(acl.m, "_default", map[ACLScope]ACLPerm), scope) && has(mval(acl.m, "_default", map[ACLScope]ACLPerm), "_default") ==> r0 == mval(acl.m, "_default", map[ACLScope]ACLPerm)["_default"] && r1 == (r0 >= required)
 //@   ensures [nothing] required != 1 && user != acl.superuser && (!mhas(acl.m, user) || (!has(mval(acl.m, user, map[ACLScope]ACLPerm), scope) && !has(mval(acl.m, user, map[ACLScope]ACLPerm), "_default"))) && (!mhas(acl.m, "_default") || (!has(mval(acl.m, "_default", map[ACLScope]ACLPerm), scope) && !has(mval(acl.m, "_default", map[ACLScope]ACLPerm), "_default"))) ==> r0 == 0 && !r1
 //@   ensures [explicit-prohibit-denies] required >= 2 && user != acl.superuser && r0 == 1 ==> !r1
+
+// ---- C36: the rate limiter uses the highest-precedence matching rule ----------------
+//
+// found_x := the rule set x is configured and its Rule(addr, handler, hint) matches.
+// rule() answers with the first of clientid, net, node (only with a node hint),
+// suffrage (only with a node hint), default map, built-in default.
+//@ func (*RateLimiterRules).rule
+//@   prop C36
+//@   requires r != nil
+//@   ensures [clientid] r.clientid != nil && fourth(r.clientid.Rule(addr, handler, hint)) ==> r2 == "clientid" && r1 == snd(r.clientid.Rule(addr, handler, hint)) && r0 == fst(r.clientid.Rule(addr, handler, hint)) && r4
+//@   ensures [net] !(r.clientid != nil && fourth(r.clientid.Rule(addr, handler, hint))) && r.nets != nil && fourth(r.nets.Rule(addr, handler, hint)) ==> r2 == "net" && r1 == snd(r.nets.Rule(addr, handler, hint)) && r4
+//@   ensures [node] !(r.clientid != nil && fourth(r.clientid.Rule(addr, handler, hint))) && !(r.nets != nil && fourth(r.nets.Rule(addr, handler, hint))) && hint.Node != nil && r.nodes != nil && fourth(r.nodes.Rule(addr, handler, hint)) ==> r2 == "node" && r1 == snd(r.nodes.Rule(addr, handler, hint)) && r4
+//@   ensures [suffrage] !(r.clientid != nil && fourth(r.clientid.Rule(addr, handler, hint))) && !(r.nets != nil && fourth(r.nets.Rule(addr, handler, hint))) && !(hint.Node != nil && r.nodes != nil && fourth(r.nodes.Rule(addr, handler, hint))) && hint.Node != nil && r.suffrage != nil && fourth(r.suffrage.Rule(addr, handler, hint)) ==> r2 == "suffrage" && r1 == snd(r.suffrage.Rule(addr, handler, hint)) && r4
+//@   ensures [fallback] !(r.clientid != nil && fourth(r.clientid.Rule(addr, handler, hint))) && !(r.nets != nil && fourth(r.nets.Rule(addr, handler, hint))) && !(hint.Node != nil && r.nodes != nil && fourth(r.nodes.Rule(addr, handler, hint))) && !(hint.Node != nil && r.suffrage != nil && fourth(r.suffrage.Rule(addr, handler, hint))) ==> r2 == "defaultmap" || r2 == "default"
+//@   ensures [no-hint-no-node-rule] hint.Node == nil ==> r2 != "node" && r2 != "suffrage"
